@@ -4,22 +4,38 @@
    user code) and judges every answer of the implementation; it never calls
    the model. *)
 From OIDC Require Import Lib Base64.
-From OIDC Require Export C16_UserCode C16_Device.
+From OIDC Require Export C16_UserCode C16_Device C16_Client C16_Overlap.
 
 Inductive input :=
 | IHist (g : cfg) (cl : list client) (ops : list op)
-| IUserCode (charset : list string) (n dash : nat) (rnd : list nat).
+| IUserCode (charset : list string) (n dash : nat) (rnd : list nat)
     (* op.NewUserCode(charset, n, dash) with crypto/rand.Reader pinned to rnd *)
+| ILoop (g : cfg) (cl : list client) (pre : list op) (p : rparty) (iv budget : Z) (rounds : list round)
+    (* after the history [pre]: rp.DeviceAccessToken(ctx, p_dc p, iv ms, rp) under a
+       caller deadline of [budget] ms against the provider, while the user acts
+       between the polls as [rounds] says *)
+| IOverlap (g : cfg) (cl : list client) (polls : list op) (evs : list sev).
+    (* a history with OVERLAPPING requests: the polls of [polls] are held inside the
+       storage lookup from their SArrive to their SServe event while everything in
+       between runs; observed: the answers in the order in which they were given
+       (operations and served polls, in event order) *)
 
 Inductive observed :=
 | OHist (rs : list resp)
 | OUserCode (r : option string)
+| OLoop (rs : list resp) (polls : nat) (res : loop_result)
+    (* the answers to [pre], the number of token requests the provider received
+       from the loop, what the loop returned *)
 | OPanic.
 
 Definition model (i : input) : observed :=
   match i with
   | IHist g cl ops => OHist (run g cl [] ops)
   | IUserCode cs n dash rnd => OUserCode (new_user_code cs n dash rnd)
+  | ILoop g cl pre p iv budget rounds =>
+      let (n, x) := poll_loop g cl p budget (final g cl [] pre) iv 0 rounds in
+      OLoop (run g cl [] pre) n x
+  | IOverlap g cl polls evs => OHist (run_sched g cl [] [] polls evs)
   end.
 
 (* ---- ground truth helpers ---------------------------------------------- *)
@@ -105,9 +121,14 @@ Definition tokens_justified (g : cfg) (cl : list client) (gt : store) (cr : cred
       && String.eqb (t_sub t) (d_subject d)         (* ... as this subject *)
       && same_scopes (t_scopes t) (d_scopes d)      (* the requested scopes: in the answer ... *)
       && same_scopes (t_granted t) (d_scopes d)     (* ... and recorded with the access token *)
+      (* an ID token IS the grant of the scope openid (OIDC Core 3.1.2.1: openid asks
+         for the identity assertion): one that comes along although openid was not
+         among the requested scopes - a scope that merely CONTAINS the text does not
+         count - carries more than the requested scopes *)
       && match t_id t with
          | None => true
          | Some (s, i) => String.eqb s (d_subject d) && String.eqb i (expected_issuer g host fwd)
+                          && string_in "openid" (d_scopes d)
          end
       && match t_at_iss t with
          | None => true
@@ -187,9 +208,120 @@ Fixpoint check (g : cfg) (cl : list client) (gt : store) (ops : list op) (rs : l
   | _, _ => false
   end.
 
+(* ---- the relying party's poll loop ---------------------------------------- *)
+(* ground truth after a history *)
+Fixpoint gt_run (gt : store) (ops : list op) (rs : list resp) : store :=
+  match ops, rs with
+  | o :: ops', x :: rs' => gt_run (gt_next gt o x) ops' rs'
+  | _, _ => gt
+  end.
+
+(* the relying party is configured with the registered credentials of c *)
+Definition rp_registered (c : client) (p : rparty) : bool :=
+  String.eqb (p_id p) (c_id c) &&
+  match c_auth c with
+  | ANone => String.eqb (p_secret p) ""
+  | ABasic | APost => String.eqb (p_secret p) (c_secret c)
+  | APkjwt => false
+  end.
+
+(* what the property promises for ONE poll of client cid for dc, from the ground
+   truth alone (the clauses of [promised]): tokens are due; tokens or
+   expired_token (approved and expired: the text is silent); a definite refusal;
+   an interim answer - authorization_pending, or slow_down on a storage
+   time-out -; or just "refused" *)
+Inductive verdict :=
+| VTokens | VTokensOrExpired | VRefuse (code : string) | VInterim (slow : bool) | VUnspecified.
+
+Definition verdict_of (gt : store) (cid dc : string) (now : Z) (f : fault) : verdict :=
+  match f with
+  | FFail e => if is_deadline e then VInterim true else VUnspecified
+  | FNone =>
+      match find_dev gt dc with
+      | None => VUnspecified
+      | Some d =>
+          if negb (String.eqb (d_client d) cid) then VUnspecified
+          else if d_denied d then VRefuse "access_denied"
+          else if d_done d then (if (now >? d_expires d)%Z then VTokensOrExpired else VTokens)
+          else if (now >? d_expires d)%Z then VRefuse "expired_token"
+          else VInterim false
+      end
+  end.
+
+Definition is_tokens (x : loop_result) : bool := match x with LTokens _ => true | _ => false end.
+Definition is_timeout (x : loop_result) : bool := match x with LTimeout => true | _ => false end.
+Definition is_err (code : string) (x : loop_result) : bool :=
+  match x with LErr c => String.eqb c code | _ => false end.
+
+(* The grant as the initiating client experiences it (RFC 8628 3.4, 3.5):
+   authorization_pending and slow_down are not results but "ask again" - the
+   next poll falls due one interval later, every slow_down adding 5 s to the
+   interval -; so the loop of the client that started the flow ends with the
+   first definite answer that falls due before the caller's deadline: the
+   tokens once the user approved, access_denied after denial, expired_token
+   after expiry; and it may give up (time-out) only when no further poll falls
+   due before the deadline. [n] = polls still unaccounted for. *)
+Fixpoint loop_ok (cid dc : string) (budget : Z) (gt : store) (iv t : Z) (rounds : list round)
+    (n : nat) (res : loop_result) : bool :=
+  match rounds with
+  | [] => (n =? 0) && is_timeout res
+  | r :: rest =>
+      let t' := (t + iv)%Z in
+      if (budget <=? t')%Z then (n =? 0) && is_timeout res
+      else
+        match n with
+        | 0 => false        (* the last answer was interim and a poll was due: the client gave up *)
+        | S n' =>
+            let gt' := users gt (r_before r) in
+            match verdict_of gt' cid dc (r_now r) (r_fault r) with
+            | VInterim slow => loop_ok cid dc budget gt' (if slow then iv + backoff_ms else iv)%Z t' rest n' res
+            | VTokens => (n' =? 0) && is_tokens res
+            | VTokensOrExpired => (n' =? 0) && (is_tokens res || is_err "expired_token" res)
+            | VRefuse c => (n' =? 0) && is_err c res
+            | VUnspecified => true
+            end
+        end
+  end.
+
+(* tokens returned after n polls must be justified by the ground truth at the
+   n-th poll *)
+Fixpoint tokens_at (g : cfg) (cl : list client) (p : rparty) (gt : store) (rounds : list round)
+    (n : nat) (t : tokens) : bool :=
+  match rounds, n with
+  | r :: rest, S n' =>
+      let gt' := users gt (r_before r) in
+      match n' with
+      | 0 => tokens_justified g cl gt' (rp_creds (p_id p) (p_secret p)) (p_dc p) (r_fault r) (p_host p) (p_fwd p) t
+      | S _ => tokens_at g cl p gt' rest n' t
+      end
+  | _, _ => false
+  end.
+
+Definition loop_spec (g : cfg) (cl : list client) (gt : store) (p : rparty) (iv budget : Z)
+    (rounds : list round) (n : nat) (res : loop_result) : bool :=
+  match res with
+  | LOther => false
+  | LTokens t => tokens_at g cl p gt rounds n t
+  | _ => true
+  end
+  && match find_client cl (p_id p) with
+     | Some c =>
+         if rp_registered c p && c_dev c && negb (String.eqb (p_dc p) "")
+         then loop_ok (c_id c) (p_dc p) budget gt iv 0 rounds n res
+         else true
+     | None => true
+     end.
+
 Definition spec (i : input) (o : observed) : bool :=
   match i, o with
   | IHist g cl ops, OHist rs => check g cl [] ops rs
+  | IOverlap g cl polls evs, OHist rs =>
+      (* every request is judged where it took effect - at its storage lookup -, by
+         the same clauses as in a sequential history: what else is in flight at that
+         moment gives nobody a claim to tokens and takes nobody's claim away *)
+      check g cl [] (lin polls evs) rs
+  | ILoop g cl pre p iv budget rounds, OLoop rs n res =>
+      check g cl [] pre rs && loop_spec g cl (gt_run [] pre rs) p iv budget rounds n res
   | IUserCode cs n dash _, OUserCode r =>
       (* never a panic; for a non-empty alphabet and n >= 1 a code, when one is
          produced, has the configured format (nothing is said about the rest) *)
@@ -220,6 +352,13 @@ Definition wf (i : input) : bool :=
   match i with
   | IHist g cl ops => forallb client_ok cl && prefix_free (g_charset g) && forallb op_ok ops
   | IUserCode cs _ _ _ => prefix_free cs
+  | ILoop g cl pre _ iv budget rounds =>
+      forallb client_ok cl && prefix_free (g_charset g) && forallb op_ok pre
+      (* a positive interval, and a script that reaches the caller's deadline *)
+      && (0 <? iv)%Z && (budget <=? iv * Z.of_nat (List.length rounds))%Z
+  | IOverlap g cl polls evs =>
+      forallb client_ok cl && prefix_free (g_charset g) && forallb op_ok (lin polls evs)
+      && forallb is_poll polls && sched_ok (List.length polls) [] [] evs
   end.
 
 (* ---- comparison of answers ---------------------------------------------- *)
@@ -241,9 +380,19 @@ Definition resp_eqb (a b : resp) : bool :=
   | _, _ => false
   end.
 
+Definition loop_result_eqb (a b : loop_result) : bool :=
+  match a, b with
+  | LTokens t1, LTokens t2 => resp_eqb (RTokens t1) (RTokens t2)
+  | LErr c1, LErr c2 => String.eqb c1 c2
+  | LTimeout, LTimeout => true
+  | LOther, LOther => true
+  | _, _ => false
+  end.
+
 Definition obs_eqb (a b : observed) : bool :=
   match a, b with
   | OHist r1, OHist r2 => list_eqb resp_eqb r1 r2
+  | OLoop r1 n1 x1, OLoop r2 n2 x2 => list_eqb resp_eqb r1 r2 && (n1 =? n2) && loop_result_eqb x1 x2
   | OUserCode r1, OUserCode r2 => option_eqb String.eqb r1 r2
   | OPanic, OPanic => true
   | _, _ => false
@@ -277,6 +426,17 @@ Definition path (i : input) (o : observed) : nat :=
   | IHist _ _ _, OHist rs => if has_device rs then 1 + bits_or [0] rs else 0
   | IUserCode _ n dash _, OUserCode (Some _) =>
       100 + (if dash =? 0 then 0 else if n <=? dash then 1 else 2)
+  | IOverlap _ _ _ evs, OHist rs =>
+      if has_device rs
+      then 300 + bits_or [0] rs
+           + (if existsb (fun e => match e with SArrive _ => true | _ => false end) evs then 64 else 0)
+      else 0
+  | ILoop _ _ _ _ _ _ _, OLoop rs n res =>
+      (* what the loop returned x how many polls it took *)
+      if has_device rs
+      then 200 + 4 * (if n <=? 5 then n else 5)
+           + match res with LTokens _ => 0 | LErr _ => 1 | LTimeout => 2 | LOther => 3 end
+      else 0
   | _, _ => 0
   end.
 
